@@ -231,6 +231,34 @@ func Run(cs Case, c *vrt.Ctx) {
 	}
 	scan(plan)
 
+	// A plan can store the root (or $.asm) inside $.asm; string, equal / neq and include then
+	// recurse without end on the cyclic value and the process dies with a stack overflow
+	// that no recover catches (known finding C20-K3). Such plans are counted, not executed.
+	cyclic, deepFn := false, false
+	var strs func(v any)
+	strs = func(v any) {
+		switch tv := v.(type) {
+		case string:
+			if tv == "$" || tv == "@" || tv == "$.asm" || tv == "@.asm" {
+				cyclic = true
+			}
+		case []any:
+			for _, e := range tv {
+				strs(e)
+			}
+		}
+	}
+	strs(plan)
+	walk(plan, func(name string, args []any) {
+		switch name {
+		case "string", "equal", "eq", "==", "neq", "!=", "include", "inspect":
+			deepFn = true
+		}
+	})
+	if cyclic && deepFn {
+		c.Fail("crash-by-construction", "Plan.Execute", "a plan that stores the root inside itself and then applies string / equal / include to it overflows the stack (not executed); "+ctxOf(planText, rootText), "cyclic-root-then-deep-function")
+		return
+	}
 	// reference
 	r, refErr, refOpen := reference(cs, plan, false)
 	var tags []string
@@ -360,6 +388,10 @@ func window(a, b string) (string, string) {
 
 // the function names - and + written bare by the SEN writer (C10-K1)
 var barePlusMinus = regexp.MustCompile(`\[[-+][ \]]`)
+
+func ctxOf(planText, rootText string) string {
+	return fmt.Sprintf("plan=%s root=%s", planText, rootText)
+}
 
 func show(o outcome) string {
 	switch {
@@ -742,6 +774,11 @@ var classifiers = []vrt.Classifier{
 	// as a broken number and "+ x" as a concatenation.
 	{ID: "C20-K1", Match: func(d vrt.Disc, c *vrt.Ctx) bool {
 		return d.Kind == "string-round-trip" && has(d, "bare-plus-or-minus-name")
+	}},
+	// C20-K3: string, equal / neq and include recurse without end on a cyclic value, which a
+	// plan can build by storing $ or $.asm under $.asm; the stack overflow kills the process.
+	{ID: "C20-K3", Match: func(d vrt.Disc, c *vrt.Ctx) bool {
+		return d.Kind == "crash-by-construction" && has(d, "cyclic-root-then-deep-function")
 	}},
 	// C20-K2: zone reads a numeric location as seconds east of UTC (pinned by asm/zone_test.go)
 	// while its description says "the number of minutes offset from UTC".
